@@ -2,6 +2,7 @@
 from __future__ import annotations
 
 import ast
+import os
 
 from ..model import ClassInfo, dotted
 from ..trace import Effect, Op, Try, walk
@@ -430,6 +431,7 @@ def check(ctx, report):
     markdown_yields_text(ctx, report)
     list_concatenation(ctx, report)
     equal_values_render_equal(ctx, report)
+    absent_optional_fields(ctx, report)
     report.floor('C14.R1', 20, 'iteration obligations')
     report.floor('C14.R4', 15, '_asdict overrides')
 
@@ -465,6 +467,145 @@ def literal_template(t, fnode, depth=0):
 
 
 # ---- R10: floating point fields hold numbers JSON can express ----------------------------------------------------------------
+
+def asn1_optional_fields():
+    """{structure name: {field: (type name, optional?)}} of asn1crypto's X.509 module, read from its ``_fields`` tables"""
+    from ..model import find_dependency
+    dep = find_dependency('asn1crypto')
+    if dep is None:
+        return None
+    out = {}
+    with open(os.path.join(dep, 'x509.py')) as f:
+        tree = ast.parse(f.read())
+    for c in tree.body:
+        if not isinstance(c, ast.ClassDef):
+            continue
+        for st in c.body:
+            if isinstance(st, ast.Assign) and len(st.targets) == 1 and isinstance(st.targets[0], ast.Name) and st.targets[0].id == '_fields' and \
+                    isinstance(st.value, ast.List):
+                fields = {}
+                for e in st.value.elts:
+                    if isinstance(e, ast.Tuple) and len(e.elts) >= 2 and isinstance(e.elts[0], ast.Constant):
+                        opt = False
+                        if len(e.elts) >= 3 and isinstance(e.elts[2], ast.Dict):
+                            for k, v in zip(e.elts[2].keys, e.elts[2].values):
+                                if isinstance(k, ast.Constant) and k.value == 'optional' and isinstance(v, ast.Constant) and v.value is True:
+                                    opt = True
+                        fields[e.elts[0].value] = (ast.unparse(e.elts[1]), opt)
+                out[c.name] = fields
+    return out
+
+
+def optional_field_read(expr, tables, roots):
+    """``<root>['a']['b'].native`` where the last key is an OPTIONAL field of the structure the chain reaches from the root
+    structure: the name of the field, else None.  ``.native`` of an absent optional field is None (asn1crypto: Void)"""
+    if not (isinstance(expr, ast.Attribute) and expr.attr == 'native'):
+        return None
+    keys, cur = [], expr.value
+    while isinstance(cur, ast.Subscript) and isinstance(cur.slice, ast.Constant) and isinstance(cur.slice.value, str):
+        keys.append(cur.slice.value)
+        cur = cur.value
+    keys.reverse()
+    struct = roots.get(ast.unparse(cur))
+    if struct is None or not keys:
+        return None
+    for i, k in enumerate(keys):
+        fld = tables.get(struct, {}).get(k)
+        if fld is None:
+            return None
+        if i == len(keys) - 1:
+            return k if fld[1] else None
+        struct = fld[0]
+    return None
+
+
+def unguarded_uses(fn, tables, roots):
+    """(line, field, how) for every optional field whose native value is iterated, subscripted, measured or unpacked in the
+    function without a test of that value"""
+    out = []
+    named = {}
+    for n in ast.walk(fn):
+        if isinstance(n, ast.Assign) and len(n.targets) == 1 and isinstance(n.targets[0], ast.Name):
+            k = optional_field_read(n.value, tables, roots)
+            if k:
+                named[n.targets[0].id] = k
+    tested = set()
+    for n in ast.walk(fn):
+        tests = []
+        if isinstance(n, (ast.If, ast.While, ast.IfExp)):
+            tests.append(n.test)
+        elif isinstance(n, ast.BoolOp):
+            tests.extend(n.values[:-1])
+        elif isinstance(n, ast.Assert):
+            tests.append(n.test)
+        for t in tests:
+            for m in ast.walk(t):
+                if isinstance(m, ast.Name) and m.id in named:
+                    tested.add(m.id)
+
+    def field_of(e):
+        k = optional_field_read(e, tables, roots)
+        if k:
+            return k
+        if isinstance(e, ast.Name) and e.id in named and e.id not in tested:
+            return named[e.id]
+        return None
+    for n in ast.walk(fn):
+        uses = []
+        if isinstance(n, (ast.For, ast.comprehension)):
+            uses.append((n.iter, 'iterated'))
+        elif isinstance(n, ast.Subscript):
+            uses.append((n.value, 'subscripted'))
+        elif isinstance(n, ast.Call) and isinstance(n.func, ast.Name) and n.func.id in ('len', 'list', 'tuple', 'sorted', 'set', 'iter', 'bytes',
+                                                                                     'bytearray', 'dict', 'enumerate', 'zip', 'sum', 'min', 'max'):
+            uses.extend((a, 'handed to %s()' % n.func.id) for a in n.args)
+        elif isinstance(n, ast.Starred):
+            uses.append((n.value, 'unpacked'))
+        elif isinstance(n, ast.Compare) and any(isinstance(o, (ast.In, ast.NotIn)) for o in n.ops):
+            uses.extend((c, 'searched') for c in n.comparators)
+        for e, how in uses:
+            k = field_of(e)
+            if k:
+                out.append((getattr(e, 'lineno', fn.lineno), k, how))
+    return out
+
+
+# expressions that hold an asn1crypto structure, by the structure they hold (the X.509 wrapper keeps the decoded certificate)
+ASN1_ROOTS = {'self._certificate': 'Certificate', 'certificate': 'Certificate', 'self.certificate': 'Certificate'}
+
+
+def absent_optional_fields(ctx, report, RULE='C14.R14'):
+    """A certificate without extensions (X.509 version 1) or without unique identifiers is a certificate the package accepts;
+    the serialisers render what its accessors return.  The native value of an absent OPTIONAL field of an asn1crypto structure is
+    None, so every use of such a value as a container needs a test first.  Which fields are optional is read from the ``_fields``
+    tables of the dependency, the chain of keys is followed from the certificate structure."""
+    report.rule(RULE, 'the native value of an OPTIONAL ASN.1 field (None when absent) is tested before it is used as a container')
+    tables = asn1_optional_fields()
+    if not tables or 'TbsCertificate' not in tables or not tables['TbsCertificate'].get('extensions', (None, False))[1]:
+        report.error('%s: the field tables of asn1crypto.x509 could not be read' % RULE)
+        return
+    n = 0
+    for c in ctx.model.repo_classes():
+        for f in c.methods.values():
+            src = ast.unparse(f.node)
+            if not any(r in src for r in ASN1_ROOTS):
+                continue
+            for m in ast.walk(f.node):
+                if isinstance(m, ast.Subscript) and ast.unparse(m.value) in ASN1_ROOTS:
+                    n += 1
+            for line, k, how in unguarded_uses(f.node, tables, ASN1_ROOTS):
+                report.add(RULE, '%s@optional[%s]' % (f.construct, k),
+                           'the native value of the OPTIONAL field %s is %s without a test: it is None for a certificate that has no such field '
+                           '(a version 1 certificate has no extensions), and rendering that certificate raises TypeError' % (k, how))
+    report.count(RULE, n)
+    # no instance on the pinned tree: the same functions must decide this example on every run
+    bad = ast.parse("def f(self):\n    for e in self._certificate['tbs_certificate']['extensions'].native:\n        pass\n").body[0]
+    good = ast.parse("def f(self):\n    v = self._certificate['tbs_certificate']['extensions'].native\n    if v is None:\n        return []\n"
+                     "    return [e for e in v] + list(self._certificate['tbs_certificate']['subject'].native)\n").body[0]
+    if len(unguarded_uses(bad, tables, ASN1_ROOTS)) != 1 or unguarded_uses(good, tables, ASN1_ROOTS):
+        report.error('%s: the built-in example is not decided as expected (rule broken)' % RULE)
+    report.floor(RULE, 1, 'reads of the decoded certificate')
+
 
 def finite_numbers(ctx, report, RULE='C14.R10'):
     """JSON has no NaN and no infinities: ``json.dumps`` writes them as bare words a standard parser refuses.  Every attrs
